@@ -4,7 +4,7 @@
     Lookup ([iter_recording_ids]) belongs to C10; here it only appears as a call that leaves the
     bucket alone.  Externals are section variables: the quoted-printable codec for bytes values,
     [json.loads], zlib.  Definitions only. *)
-From Playback Require Import Base.Str Values.PyVal Values.Codec Cassette.Bucket.
+From Playback Require Import Base.Str Values.PyVal Values.Codec Values.JsonWf Cassette.Bucket.
 From Coq Require Import QArith.
 Open Scope list_scope.
 
@@ -277,3 +277,7 @@ Definition key_disjoint (c c' : cfg) : bool :=
 (** recordings in the serializer's faithful domain *)
 Definition rec_wf (r : recording) : bool :=
   str_ok (r_id r) && wf (VDict (r_data r)) && wf (VDict (r_meta r)).
+(** ... whose floats carry float.__repr__ texts and whose bytes values are lists of bytes
+    (JsonWf.leaves_ok: the domain on which json.loads inverts json.dumps) *)
+Definition rec_leaves_ok (r : recording) : bool :=
+  leaves_ok (VDict (r_data r)) && leaves_ok (VDict (r_meta r)).
